@@ -2,7 +2,7 @@ from lanes import *  # noqa
 
 PROP = {
     "level": "fault_enumeration",
-    "level_text": "Fault enumeration over collector scripts: the real Otlp emitter runs against a scripted local collector whose per-request behaviour (acknowledge with 200/202/204 or grpc-status 0, non-2xx, non-zero grpc-status, stall beyond the request timeout, reset on accept, reset before the body, close after the body, refuse connections, whole-scenario outage of one signal) is drawn per scenario, crossed with a complete walk over transport (HTTP+JSON, HTTP+protobuf, gRPC) x gzip on/off x the seven non-empty signal subsets, and bursts sized so that one batch spans 1..n size-limited requests. Each scenario is judged by vid accounting against the collector's recorded decisions and stamps. The fault space is sampled (10^2 scenarios quick, 2x10^3 thorough; the evidence counts which fault classes were actually hit by a request), not exhausted. Held-on-what-was-observed.",
+    "level_text": "Fault enumeration over collector scripts: the real Otlp emitter runs against a scripted local collector whose per-request behaviour (acknowledge with 200/202/204 or grpc-status 0, non-2xx, non-zero grpc-status in a trailers frame or in a trailers-only response, a bare non-2xx :status on gRPC, stall beyond the request timeout, reset on accept, reset before the body, close after the body, refuse connections, whole-scenario outage of one signal) is drawn per scenario, crossed with a complete walk over transport (HTTP+JSON, HTTP+protobuf, gRPC) x gzip on/off x the seven non-empty signal subsets, and bursts sized so that one batch spans 1..n size-limited requests. Each scenario is judged by vid accounting against the collector's recorded decisions and stamps. Every fault kind of each transport is walked systematically (first or second request after the primer) and additionally drawn at random; the fault space as a whole is sampled (2x10^2 scenarios quick, 8x10^3 thorough; the evidence counts which fault classes were actually hit by a request), not exhausted. Held-on-what-was-observed.",
     "level_note": "Trusts the scripted collector (harness/monx/src/shared/collector.rs: hand-written HTTP/1.1 over tokio, h2 server, flate2, prost / serde_json decoders). Back-off and request timeout are shortened through the cfg(emit_rs_emit_verif) hooks (delay divisor 50..200, request timeout 250..300 ms); the logical back-off state is untouched.",
     "technique": "runtime monitoring with fault injection: vid accounting at a scripted local OTLP collector (per-request fault scripts), judged after blocking_flush on logical stamps",
     "assumptions": [
